@@ -259,6 +259,27 @@ fn recursive_callee_programs() -> Gen<Vec<S>> {
             v.push(p);
         }
     }
+    // the value nesting limit is a run-time error of the same kind: an array built to the
+    // limit (2048 levels), then wrapped once more in a store whose value is never used
+    for wrap in [E::Arr(vec![var("a")]), E::Arr(vec![num("1"), E::Arr(vec![var("a")])]), call("wrapit", vec![var("a")])] {
+        for unused_in_function in [false, true] {
+            let mut p = vec![
+                func("wrapit", &["q"], vec![S::Ret(Some(E::Arr(vec![var("q")])))]),
+                make("a", E::Arr(vec![num("0")])),
+                make("i", num("0")),
+                S::Loop(bin(Op::Lt, var("i"), num("2047")), vec![set("a", E::Arr(vec![var("a")])), set("i", bin(Op::Add, var("i"), num("1")))]),
+                shout(st("built")),
+            ];
+            if unused_in_function {
+                p.push(func("host", &["q"], vec![make("c", if matches!(wrap, E::Call(..)) { call("wrapit", vec![var("q")]) } else { E::Arr(vec![var("q")]) }), S::Ret(Some(num("3")))]));
+                p.push(shout(call("host", vec![var("a")])));
+            } else {
+                p.push(make("c", wrap.clone()));
+            }
+            p.push(shout(st("done")));
+            v.push(p);
+        }
+    }
     Gen::of(v)
 }
 
